@@ -73,6 +73,7 @@ def run(v, workdir, replay):
             v.saw("op:" + e["operator"].split(":")[-1], e["n"])
         elif k == "proof_reverification":
             v.saw("proofs_reverified_on_accepted_blocks", e["proofs_reverified"])
+            v.saw("refusal_errors_rendered", e.get("errors_rendered", 0))
             v.saw("obs_library_accepts_where_rfc9162_rejects", e["library_accepts_where_rfc9162_rejects"])
         elif k == "checktx_corpus":
             for kind, n in e["action_kinds"].items():
@@ -96,6 +97,8 @@ def run(v, workdir, replay):
                 v.violate("C17/accepted-value-inconsistent/%s/%s" % (e["entry"], oc), "%s accepted a value that is not self-consistent: %s" % (e["entry"], oc), wit)
     v.need("inputs", 500000 if not thorough else 5000000)
     v.need("accepted", 5000)
+    v.need("refusal_errors_rendered", 100000)
+    v.need("op:type_url_rewritten", 100)
     v.need("entry:check_tx", 50000)
     v.need("entry:check_tx_resigned", 50000)
     v.need("checktx_accepted_mutants", 200)
